@@ -98,7 +98,7 @@ theorem matchRule_lit {env : FilterEnv} {c : Char} {p : List Sym} {path : Str} {
     simp only [matchRule]
     by_cases h : c = d
     · subst h; simp
-    · simp only [beq_iff_eq, h, if_false]
+    · simp only [h, if_false]
       constructor
       · intro h'; cases h'
       · rintro ⟨r', h1, _⟩; simp only [List.cons.injEq] at h1; exact absurd h1.1.symm h
